@@ -57,7 +57,10 @@ def strip_comments(text):
 def gate(dirs=None):
     """Fail closed on anything that would declare an axiom or switch off a kernel check."""
     problems = []
-    files = sorted(glob.glob(os.path.join(env.THEORIES, '**', '*.v'), recursive=True))
+    if dirs is None:
+        files = sorted(glob.glob(os.path.join(env.THEORIES, '**', '*.v'), recursive=True))
+    else:
+        files = sorted(p for d in dirs for p in glob.glob(os.path.join(env.THEORIES, d, '*.v')))
     for path in files:
         with open(path) as f:
             text = strip_comments(f.read())
@@ -89,29 +92,38 @@ class Lock:
         self.f.close()
 
 
-def vfiles():
-    return sorted(os.path.relpath(p, env.COQ) for p in glob.glob(os.path.join(env.THEORIES, '**', '*.v'), recursive=True))
+def vfiles(dirs=None):
+    if dirs is None:
+        pats = [os.path.join(env.THEORIES, '**', '*.v')]
+    else:
+        pats = [os.path.join(env.THEORIES, d, '*.v') for d in dirs]
+    return sorted({os.path.relpath(p, env.COQ) for pat in pats for p in glob.glob(pat, recursive=True)})
 
 
-def ensure_makefile():
-    files = vfiles()
+def ensure_makefile(tag, dirs):
+    """One Makefile per property (Common + deps + the property), so that a half-written file of another property can
+    never disturb this build."""
+    files = vfiles(dirs)
     h = hashlib.sha256('\n'.join(files).encode()).hexdigest()
-    stamp = os.path.join(env.COQ, '.filelist.sha')
-    mk = os.path.join(env.COQ, 'Makefile')
+    stamp = os.path.join(env.COQ, f'.filelist.{tag}.sha')
+    mk = os.path.join(env.COQ, f'Makefile.{tag}')
     old = open(stamp).read() if os.path.exists(stamp) else ''
     if old != h or not os.path.exists(mk):
-        subprocess.run(['coq_makefile', '-f', '_CoqProject', '-o', 'Makefile'] + files, cwd=env.COQ, check=True,
+        subprocess.run(['coq_makefile', '-f', '_CoqProject', '-o', f'Makefile.{tag}'] + files, cwd=env.COQ, check=True,
                        stdout=subprocess.DEVNULL)
         with open(stamp, 'w') as f:
             f.write(h)
+    return f'Makefile.{tag}'
 
 
-def make(targets, jobs=16):
+def make(targets, tag='all', dirs=None, jobs=16, keep_going=False):
     """Full .vo build (never -vos) of the given targets and whatever they depend on."""
     with Lock():
-        ensure_makefile()
-        cmd = ['timeout', str(COQ_TIMEOUT), 'make', f'-j{jobs}', '--no-print-directory'] + targets
-        p = subprocess.run(cmd, cwd=env.COQ, stdout=subprocess.PIPE, stderr=subprocess.STDOUT, text=True)
+        mk = ensure_makefile(tag, dirs)
+        cmd = ['timeout', str(COQ_TIMEOUT), 'make', '-f', mk, f'-j{jobs}', '--no-print-directory']
+        if keep_going:
+            cmd.append('-k')
+        p = subprocess.run(cmd + targets, cwd=env.COQ, stdout=subprocess.PIPE, stderr=subprocess.STDOUT, text=True)
     return p.returncode == 0, p.stdout
 
 
@@ -195,7 +207,7 @@ def check_proofs(pid, scratch, deps=(), files=('Properties.v',)):
         vo = os.path.join(env.THEORIES, pid, fname + 'o')
         if os.path.exists(vo):
             os.remove(vo)
-    ok, log = make(targets)
+    ok, log = make(targets, tag=pid, dirs=['Common'] + list(deps) + [pid])
     names = [n for f in files for n in theorem_names(pid, f)]
     res = {'ok': ok, 'obligations': len(names), 'discharged': 0, 'theorems': [], 'error': None,
            'checker_cmd': f'make -C coq -j16 {" ".join(targets[-3:])} (full .vo) ; coqc Assumptions_{pid}.v',
